@@ -6,7 +6,7 @@ import hashlib
 from .. import batch, cfggen, gen, model, runner, statemodel, uplink
 from ..model import C
 from ..scen import Scn, raw, up
-from .C07 import cfg_dir, gen_feedback
+from .C07 import cfg_dir, gen_feedback, field_sweep
 from .C02 import rand_msg, corrupt
 
 def grammar_packet(rng, m=None, cfg=None):
@@ -70,6 +70,10 @@ def gen_stream(rng, kind, m=None, cfg=None, nodes=None):
                 fr, _k = corrupt(rng, fr)
             parts.append(fr)
         return b''.join(parts)
+    if kind == 'fieldsweep':
+        # valid feedback about configured equipment, one data byte swept over a slice of 0..255 (the slices of one process cover all values)
+        lo = rng.randrange(0, 256, 32)
+        return b''.join(model.frame(model.build_msg(ad, 0, t, d_)) for ad, t, d_ in field_sweep(rng, m, cfg, nodes, ntemplates=1, values=range(lo, lo + 32)))
     return b''.join(grammar_packet(rng, m, cfg) for _ in range(rng.randrange(1, 4)))
 
 def probe_msg(i):
@@ -91,7 +95,7 @@ def make_scenario_factory(ctx, debug, cfg, nodes, seedk):
     return make
 
 def run(ctx):
-    ctx.rule = ('four generators: byte noise biased to delimiters/escapes; corrupted valid traffic (incl. feedback about configured equipment); grammar-generated CRC-valid packets with '
+    ctx.rule = ('five generators: field sweeps (valid feedback about configured equipment with one data byte taking every value);  byte noise biased to delimiters/escapes; corrupted valid traffic (incl. feedback about configured equipment); grammar-generated CRC-valid packets with '
                 'inconsistent length bytes, address stacks of depth 0-8 and unterminated, every type code with too little / too much data, field values outside every table; '
                 'delimiter-less runs of 255-4096 bytes. Debug and normal mode, sender addresses of configured boards and unknown nodes; batches per process, the tail of a batch '
                 'is re-run after a crash. non-trivial = distinct (generator, mode) case after which the probe packet was delivered')
@@ -112,7 +116,7 @@ def run(ctx):
             m = statemodel.Model(cfg, nodes)
         cases = []
         for i in range(per):
-            kind = rng.choice(['noise', 'mutated', 'grammar', 'grammar', 'grammar', 'long'])
+            kind = rng.choice(['noise', 'mutated', 'grammar', 'grammar', 'grammar', 'long'] + ([] if debug else ['fieldsweep', 'fieldsweep']))
             cases.append((kind, gen_stream(rng, kind, m, cfg, nodes)))
         groups.append((debug, cfg, nodes, cases, k))
         total += per
